@@ -79,6 +79,30 @@ def spec(self, shape, device=None, dtype=None, fill=0):
     self.__pointer = 0
     return self.__data
 """),
+    "deinitialize": ("deinitialize = storage replaced by an empty (or uninitialised) tensor of the same kind, dtype, device and requires_grad; pointer 0", """
+def spec(self, use_uninitialized=False):
+    data = self.__data
+    if isinstance(data, nn.Parameter):
+        if use_uninitialized:
+            self.__data = nn.UninitializedParameter(requires_grad=data.requires_grad, device=data.device, dtype=data.dtype)
+        elif isinstance(data, nn.UninitializedParameter):
+            self.__data = nn.Parameter(torch.empty(0, dtype=data.dtype, device=data.device), data.requires_grad)
+        else:
+            data.data = empty(data, shape=(0,))
+    elif isinstance(data, torch.Tensor):
+        if use_uninitialized:
+            self.__data = nn.UninitializedBuffer(requires_grad=data.requires_grad, device=data.device, dtype=data.dtype)
+        elif isinstance(data, nn.UninitializedBuffer):
+            self.__data = torch.empty(0, dtype=data.dtype, device=data.device, requires_grad=data.requires_grad)
+        else:
+            self.__data = empty(data, shape=(0,))
+    elif use_uninitialized:
+        self.__data = nn.UninitializedBuffer()
+    else:
+        self.__data = torch.empty(0)
+    self.__pointer = 0
+    return self.__data
+"""),
     "__init__": ("construction = size max(ceil(duration/dt) + inclusive, 1); given storage is copied into every slot (unsqueeze + repeat: each slot owns its memory); constraints shifted past the time dimension; dt / duration / inclusive / pointer registered on the owner", """
 def spec(self, owner, name, step_time, duration, value, constraints=None, persist_data=True, persist_constraints=False,
          persist_temporal=False, strict=True, live=False, inclusive=False):
